@@ -2,6 +2,7 @@ from propdefs.common import *
 
 PROP = {
     "bin": "c07",
+    "minimize": True,   # harness implements `--only i --keep p0,p1,..` (notes/minimisation.md)
     "coq_targets": ["theories/Exec/C07Check"],
     "n": {"quick": 480, "thorough": 12000},
     "theorems": ["step_refines", "guards_det_suffices", "steps_refine", "step_frame", "step_deterministic", "no_guessed_value", "stuck_situations", "paged_exec_sim", "driver_is_byte_instance", "paged_step_refines", "paged_steps_refine", "paged_fresh_related", "example_hypotheses", "example_paged_run"],
